@@ -442,6 +442,9 @@ func genSrvCfg(rt *rapid.T, modes []string) SrvCfg {
 		Register:  rapid.SampledFrom([]string{"echo", "echo", "assign", "assign", "error"}).Draw(rt, "register"),
 		Mode:      rapid.SampledFrom(modes).Draw(rt, "mode"),
 	}
+	if cfg.Transport == "tcp-tls" {
+		cfg.TLSVia = rapid.SampledFrom([]string{"", "", "getcertificate", "getconfig"}).Draw(rt, "tlsVia")
+	}
 	if cfg.Transport == "inproc" {
 		// the in-process transport supports neither compression nor encryption: there is nothing to negotiate
 		cfg.Comp, cfg.Enc = []string{"none"}, []string{"none"}
